@@ -15,6 +15,8 @@
  *                  statement's own per-number allowance, see pred_allowance) key predict|<kind>|<class>
  *   write-mutates  deep bitwise hash of the in-memory model before/after Write   key write-mutates|Write<kind>
  *   other-path     bytes of the other path's file before/after Write             key other-path|Write<kind>
+ *   died / alloc / nonterm   the call crashed (sanitizer, abort), asked for > 64 MB, or looped: each step runs in
+ *                  its own forked process, so the key carries the call and the class: died|Read<kind>|<class>
  * <class> is computed from the history of the path written:
  *   first-write | writes>=2,no-shared-table | writes>=2,prev-same-model | writes>=2,prev-differs
  * ("shared table": an earlier write to the path was of a kind that uses a table name of this kind,
@@ -34,12 +36,18 @@
 /* ------------------------------------------------------------------ seams */
 void __real_GetNProcessor(size_t *a, size_t *b);
 void __wrap_GetNProcessor(size_t *a, size_t *b) { if (a) *a = 1; if (b) *b = 1; }
-/* DVectNorm is called once per iteration of the NIPALS loops of PCA, PLS (LVCalc) and CPCA */
-static int in_setup = 1; static long setup_ticks = 0;
+/* DVectNorm is called once per iteration of the NIPALS loops of PCA, PLS (LVCalc) and CPCA.  Library calls
+ * are made in main() (fitting the alphabet) and in the forked step process (see run_step), never in the
+ * engine's worker itself, so the ceilings end the process with a code instead of calling vx_tick. */
+#define EXIT_ALLOC 42
+#define EXIT_NONTERM 43
+static int in_setup = 1; static long ticks_ = 0;
 void __real_DVectNorm(dvector *v, dvector *n);
 void __wrap_DVectNorm(dvector *v, dvector *n) {
-  if (in_setup) { if (++setup_ticks > 2000000) { fprintf(stderr, "VX-HARNESS-ERROR: C16 setup: a fit of the model alphabet does not terminate\n"); _exit(2); } }
-  else vx_tick("nonterm|predictor|C16");
+  if (++ticks_ > (in_setup ? 2000000 : 200000)) {
+    if (in_setup) fprintf(stderr, "VX-HARNESS-ERROR: C16 setup: a fit of the model alphabet does not terminate\n");
+    _exit(in_setup ? 2 : EXIT_NONTERM);
+  }
   __real_DVectNorm(v, n);
 }
 
@@ -55,31 +63,18 @@ int __wrap_sqlite3_open(const char *f, sqlite3 **db) {
 }
 
 /* Allocation budget: a reader that takes garbage for a dimension asks for gigabytes (row by row, so the
- * allocator never refuses).  Every library call of a history gets a budget of 64 MB of requested bytes
- * (the models need < 2 MB); exceeding it is a violation of the call in progress, not an OOM kill. */
+ * allocator never refuses).  The step process gets a budget of 64 MB of requested bytes per library call
+ * (the models need < 2 MB); exceeding it ends the step process with EXIT_ALLOC, which the parent reports as
+ * a violation of the call in progress -- never an OOM kill of the machine. */
 #define ALLOC_BUDGET (64L << 20)
-static long alloc_used = 0; static char alloc_key[160] = "alloc|setup"; static int fd_leak = 0;
+static long alloc_used = 0;
 void *__real_xmalloc(size_t n); void *__real_xrealloc(void *p, size_t n);
 static void alloc_charge(size_t n) {
   if (in_setup) return;
-  if (n > (size_t)ALLOC_BUDGET || (alloc_used += (long)n) > ALLOC_BUDGET) {
-    alloc_used = 0; fd_leak = 1;
-    vx_fail_abort(alloc_key, "the call asks for more than %ld MB of memory (last request %zu bytes): a dimension was read from the wrong place", ALLOC_BUDGET >> 20, n);
-  }
+  if (n > (size_t)ALLOC_BUDGET || (alloc_used += (long)n) > ALLOC_BUDGET) _exit(EXIT_ALLOC);
 }
 void *__wrap_xmalloc(size_t n) { alloc_charge(n); return __real_xmalloc(n); }
 void *__wrap_xrealloc(void *p, size_t n) { alloc_charge(n); return __real_xrealloc(p, n); }
-static void alloc_arm(const char *what, const char *kind, const char *cls) { alloc_used = 0; snprintf(alloc_key, sizeof alloc_key, "alloc|%s%s|%s", what, kind, cls); }
-/* an aborted call leaves its sqlite handle open; close those descriptors before the next history */
-static void close_leaked_fds(void) {
-  if (!fd_leak) return;
-  fd_leak = 0;
-  for (int fd = 3; fd < 1024; fd++) {
-    char ln[64], tgt[256]; snprintf(ln, sizeof ln, "/proc/self/fd/%d", fd);
-    ssize_t k = readlink(ln, tgt, sizeof tgt - 1); if (k <= 0) continue; tgt[k] = 0;
-    if (strncmp(tgt, "/dev/shm/c16_", 13) == 0 && strstr(tgt, ".sqlite3")) close(fd);
-  }
-}
 
 /* ------------------------------------------------------------------ model description */
 enum { K_PCA = 0, K_PLS = 1, K_CPCA = 2 };
@@ -156,8 +151,8 @@ static void mg_note(double ratio, double *pass, double *fail) {
 }
 
 /* compare the saved fields of `got` against `want`; returns 1 if equal per the statement; msg describes the first difference */
-static int flat_compare(int kind, const flat *want, const flat *got, int unsaved, char *msg, size_t mlen) {
-  double worst = 0; int ok = 1; msg[0] = 0;
+static int flat_compare(int kind, const flat *want, const flat *got, int unsaved, char *msg, size_t mlen, double *ratio) {
+  double worst = 0, worstfail = INFINITY; int ok = 1; msg[0] = 0;
   for (int f = 0; f < want->nf; f++) {
     if (FT[kind][f].unsaved != unsaved) continue;
     int same = want->nd[f] == got->nd[f];
@@ -175,11 +170,11 @@ static int flat_compare(int kind, const flat *want, const flat *got, int unsaved
       if (ratio > worst) worst = ratio;
       if (ratio > 1.0) {
         if (ok) snprintf(msg, mlen, "field %s number %d: read back %.17g, written %.17g (|diff| %.3g, allowed %.3g)", FT[kind][f].name, i, g, w, err, allow);
-        ok = 0; mg_note(ratio, &mg_pass_val, &mg_fail_val);
+        ok = 0; if (ratio < worstfail) worstfail = ratio;
       }
     }
   }
-  if (ok && !unsaved) mg_note(worst, &mg_pass_val, &mg_fail_val);
+  if (ratio) *ratio = ok ? worst : worstfail;      /* passing: largest ratio; failing on a number: smallest failing ratio (inf if only dimensions differ) */
   return ok;
 }
 
@@ -342,11 +337,74 @@ static void *do_read(int kind, char *path) {
 }
 static void do_del(int kind, void *m) { if (kind == K_PCA) { PCAMODEL *p = m; DelPCAModel(&p); } else if (kind == K_PLS) { PLSMODEL *p = m; DelPLSModel(&p); } else { CPCAMODEL *p = m; DelCPCAModel(&p); } }
 
+/* ------------------------------------------------------------------ one step, in its own process
+ * Write + Read + Predict of one step run in a forked child: a crash, abort(), allocation bomb or endless loop
+ * of the library ends the child only, the parent (the engine's worker) attributes it to the call and the
+ * input class (key died|<call>|<class>) and the history goes on.  The child reports through a pipe: one
+ * stage byte before each library call, then the judgement.  waitpid is declared by hand: <sys/wait.h>
+ * pulls in <signal.h>, which clashes with the library's `ssignal` typedef. */
+extern int waitpid(int pid, int *status, int options);
+typedef struct {
+  int mutated, other_changed, ok, has2, ok2, pred_done, pred_n, wj;
+  double val_ratio, pred_ratio, pv, sv, av;
+  uint64_t fh, gh;
+  char msg[700], msg2[300];
+} stepres;
+
+static void step_child(int fd, mdl *a, int p) {
+  static flat G; static double pr[MAXPRED]; static stepres R;
+  int kind = a->kind; char st;
+  memset(&R, 0, sizeof R);
+  uint64_t other_before = file_hash(PATHS[1 - p]);
+  st = 'W'; if (write(fd, &st, 1) != 1) _exit(3);
+  alloc_used = 0; ticks_ = 0;
+  do_write(kind, PATHS[p], a->model);
+  R.fh = file_hash(PATHS[p]);
+  flatten(kind, a->model, &G);
+  R.mutated = flat_hash(&G, 1) != a->h0;
+  R.other_changed = file_hash(PATHS[1 - p]) != other_before;
+  st = 'R'; if (write(fd, &st, 1) != 1) _exit(3);
+  alloc_used = 0; ticks_ = 0;
+  void *r = do_read(kind, PATHS[p]);
+  flatten(kind, r, &G);
+  R.ok = flat_compare(kind, &a->F, &G, 0, R.msg, sizeof R.msg, &R.val_ratio);
+  R.gh = flat_hash(&G, 0);
+  if (kind == K_PCA) { R.has2 = 1; R.ok2 = flat_compare(kind, &a->F, &G, 1, R.msg2, sizeof R.msg2, NULL); }
+  if (R.ok) {
+    st = 'P'; if (write(fd, &st, 1) != 1) _exit(3);
+    alloc_used = 0; ticks_ = 0;
+    int n = predict(a, r, pr);
+    R.pred_done = 1; R.pred_n = n; R.pred_ratio = n == a->np ? 0 : INFINITY;
+    for (int j = 0; j < n && n == a->np; j++) { double e = fabs(pr[j] - a->pred[j]); if (!(e == e)) e = INFINITY; if (e / a->allow[j] > R.pred_ratio) { R.pred_ratio = e / a->allow[j]; R.wj = j; } }
+    R.pv = n == a->np ? pr[R.wj] : NAN; R.sv = a->pred[R.wj]; R.av = a->allow[R.wj];
+  }
+  st = 'F'; if (write(fd, &st, 1) != 1 || write(fd, &R, sizeof R) != (ssize_t)sizeof R) _exit(3);
+  _exit(0);
+}
+
+/* returns the last stage byte seen; *done = 1 if the judgement arrived; *status = wait status */
+static char run_step(mdl *a, int p, stepres *R, int *done, int *status) {
+  int fds[2]; *done = 0; *status = 0;
+  if (pipe(fds) != 0) { fprintf(stderr, "VX-HARNESS-ERROR: C16 pipe failed\n"); _exit(2); }
+  fflush(NULL);
+  int pid = fork();
+  if (pid < 0) { fprintf(stderr, "VX-HARNESS-ERROR: C16 fork failed\n"); _exit(2); }
+  if (pid == 0) { close(fds[0]); step_child(fds[1], a, p); _exit(0); }
+  close(fds[1]);
+  static unsigned char buf[sizeof(stepres) + 16]; size_t n = 0; ssize_t k;
+  while (n < sizeof buf && (k = read(fds[0], buf + n, sizeof buf - n)) > 0) n += (size_t)k;
+  close(fds[0]);
+  waitpid(pid, status, 0);
+  char stage = '?'; size_t i = 0;
+  while (i < n && buf[i] != 'F') stage = (char)buf[i++];
+  if (i < n && buf[i] == 'F' && n - i - 1 == sizeof(stepres)) { memcpy(R, buf + i + 1, sizeof *R); *done = 1; }
+  return stage;
+}
+
 /* ------------------------------------------------------------------ one history */
 #define MAXLEN 5
 static void body(void) {
-  static flat G;                       /* read-back model, flattened */
-  static double pr[MAXPRED];
+  static stepres R;
   in_setup = 0;
   /* quick: lengths 1..3; thorough: 1..4 over the full alphabet plus length 5 (the statement's bound) over
    * one small model per kind (PCA-small, PLS-small, CPCA-2blocks) x 2 paths = 6^5 histories */
@@ -355,7 +413,7 @@ static void body(void) {
   int len = 1 + vx_choose("len-1", L);
   int sub = len == 5;
   int hist[NPATH][MAXLEN], nh[NPATH] = {0, 0};
-  close_leaked_fds(); set_paths(); wipe_paths();
+  set_paths(); wipe_paths();
   uint64_t oh = 0x16;
   for (int s = 0; s < len; s++) {
     char lab[16]; snprintf(lab, sizeof lab, "write%d", s);
@@ -365,42 +423,47 @@ static void body(void) {
     int shared = 0, differs = 0;
     for (int q = 0; q < nh[p]; q++) if (shares_table(M[hist[p][q]].kind, kind)) { shared = 1; if (hist[p][q] != mi) differs = 1; }
     const char *cls = nh[p] == 0 ? "first-write" : !shared ? "writes>=2,no-shared-table" : differs ? "writes>=2,prev-differs" : "writes>=2,prev-same-model";
-    char key[120], msg[900];
+    char key[120];
     vx_log("step %d: Write%s(%s, path %d)  [%s]\n", s, KN[kind], a->name, p, cls);
 
-    uint64_t other_before = file_hash(PATHS[1 - p]);
-    alloc_arm("Write", KN[kind], cls);
-    do_write(kind, PATHS[p], a->model); vx_transition(1);
-    { uint64_t fh = file_hash(PATHS[p]); oh = vx_hash(&fh, sizeof fh, oh); vx_outcome(oh); }   /* observed: the bytes written */
-    flatten(kind, a->model, &G);
+    int done, st; char stage = run_step(a, p, &R, &done, &st);
+    vx_transition(stage == 'W' ? 1 : stage == 'R' ? 2 : 3);
+    if (!done) {
+      const char *call = stage == 'W' ? "Write" : stage == 'R' ? "Read" : stage == 'P' ? "Predict" : "step";
+      int sig = st & 0x7f, code = (st >> 8) & 0xff;
+      if (stage == '?' || (sig == 0 && code == 3)) { fprintf(stderr, "VX-HARNESS-ERROR: C16 step process failed before its first library call (status %d)\n", st); _exit(2); }
+      if (sig == 0 && code == EXIT_ALLOC) {
+        snprintf(key, sizeof key, "alloc|%s%s|%s", call, KN[kind], cls);
+        vx_check(0, key, "step %d of %d, %s%s(%s) on path %d after %d earlier write(s): the call asks for more than %ld MB of memory -- a dimension is taken from the wrong place", s + 1, len, call, KN[kind], a->name, p, nh[p], ALLOC_BUDGET >> 20);
+      } else if (sig == 0 && code == EXIT_NONTERM) {
+        snprintf(key, sizeof key, "nonterm|%s%s|%s", call, KN[kind], cls);
+        vx_check(0, key, "step %d of %d, %s%s(%s): iteration ceiling exceeded", s + 1, len, call, KN[kind], a->name);
+      } else {
+        snprintf(key, sizeof key, "died|%s%s|%s", call, KN[kind], cls);
+        vx_check(0, key, "step %d of %d, %s%s(%s) on path %d after %d earlier write(s) to it ended the process (%s %d; sanitizer report, if any, in the log)", s + 1, len, call, KN[kind], a->name, p, nh[p], sig ? "signal" : "exit code", sig ? sig : code);
+      }
+      oh = vx_hash(&stage, 1, oh); vx_outcome(oh);
+      if (stage == 'W') break;            /* the file may be half written: the rest of this history is not judged */
+      if (nh[p] < MAXLEN) hist[p][nh[p]++] = mi;
+      continue;
+    }
+    oh = vx_hash(&R.fh, sizeof R.fh, oh); vx_outcome(oh);                 /* observed: the bytes written */
     snprintf(key, sizeof key, "write-mutates|Write%s", KN[kind]);
-    vx_check(flat_hash(&G, 1) == a->h0, key, "step %d: the in-memory model %s changed while it was written", s, a->name);
+    vx_check(!R.mutated, key, "step %d: the in-memory model %s changed while it was written", s, a->name);
     snprintf(key, sizeof key, "other-path|Write%s", KN[kind]);
-    vx_check(file_hash(PATHS[1 - p]) == other_before, key, "step %d: writing path %d changed the file of path %d", s, p, 1 - p);
-
-    alloc_arm("Read", KN[kind], cls);
-    void *r = do_read(kind, PATHS[p]); vx_transition(1);
-    flatten(kind, r, &G);
-    int ok = flat_compare(kind, &a->F, &G, 0, msg, sizeof msg);
+    vx_check(!R.other_changed, key, "step %d: writing path %d changed the file of path %d", s, p, 1 - p);
     snprintf(key, sizeof key, "readback|%s|%s", KN[kind], cls);
-    vx_check(ok, key, "step %d of %d, Write%s(%s) to path %d after %d earlier write(s) to it, then Read%s: %s", s + 1, len, KN[kind], a->name, p, nh[p], KN[kind], msg);
-    if (!ok) vx_log("  readback differs: %s\n", msg);
-    if (kind == K_PCA) {
-      int ok2 = flat_compare(kind, &a->F, &G, 1, msg, sizeof msg);
-      vx_check(ok2, "unsaved-field|PCA|dmodx", "Write/ReadPCA(%s): %s (WritePCA stores no dmodx table)", a->name, msg);
-    }
-    if (ok) {
-      alloc_arm("Predict", KN[kind], cls);
-      int n = predict(a, r, pr); vx_transition(1);
-      double worst = n == a->np ? 0 : INFINITY; int wj = 0;
-      for (int j = 0; j < n && n == a->np; j++) { double e = fabs(pr[j] - a->pred[j]); if (!(e == e)) e = INFINITY; if (e / a->allow[j] > worst) { worst = e / a->allow[j]; wj = j; } }
-      mg_note(worst, &mg_pass_pred, &mg_fail_pred);
+    vx_check(R.ok, key, "step %d of %d, Write%s(%s) to path %d after %d earlier write(s) to it, then Read%s: %s", s + 1, len, KN[kind], a->name, p, nh[p], KN[kind], R.msg);
+    if (!R.ok) vx_log("  readback differs: %s\n", R.msg);
+    mg_note(R.val_ratio, &mg_pass_val, &mg_fail_val);
+    if (R.has2) vx_check(R.ok2, "unsaved-field|PCA|dmodx", "Write/ReadPCA(%s): %s (WritePCA stores no dmodx table)", a->name, R.msg2);
+    if (R.pred_done) {
+      mg_note(R.pred_ratio, &mg_pass_pred, &mg_fail_pred);
       snprintf(key, sizeof key, "predict|%s|%s", KN[kind], cls);
-      vx_check(worst <= 1.0, key, "step %d: prediction of the model read back (%s) differs: element %d is %.17g, the saved model gives %.17g (allowed %.3g)", s, a->name, wj, n == a->np ? pr[wj] : NAN, a->pred[wj], a->allow[wj]);
+      vx_check(R.pred_ratio <= 1.0, key, "step %d: prediction of the model read back (%s) differs: %d numbers (expected %d), element %d is %.17g, the saved model gives %.17g (allowed %.3g)", s, a->name, R.pred_n, a->np, R.wj, R.pv, R.sv, R.av);
     }
-    oh = vx_hash(&ok, sizeof ok, flat_hash(&G, 0) ^ oh);
-    vx_outcome(oh);                    /* per step: a history that later crashes still counts what it observed */
-    do_del(kind, r);
+    oh = vx_hash(&R.ok, sizeof R.ok, R.gh ^ oh);
+    vx_outcome(oh);                    /* what was read back */
     if (nh[p] < MAXLEN) hist[p][nh[p]++] = mi;
   }
   wipe_paths();
